@@ -20,6 +20,11 @@ The real Optimizer.from_json / run / save_full_state / restart-as-torchtree.main
 parameter values, learning rates and scheduler decay with an uninterpreted loss; the state of the restarted
 optimiser and the states visited by the resumed run are proved equal to those of the uninterrupted run for every
 interruption point within the bounds; counterexamples are replayed with real checkpoint files.
+
+chk/c17_main.py (symtorch): the restart sequence of the real torchtree.torchtree.main with one, two and three -c files
+(several algorithms, each with its own checkpoint; overlapping files: the last file naming an id decides).
+chk/c17_window.py (symtorch, region enumeration): adaptors with a finite adaptation window, checkpoint written before /
+inside / after the window; restart state and the next learn call against the uninterrupted object.
 """
 from __future__ import annotations
 
@@ -41,8 +46,12 @@ BIG = 2 ** 70
 
 # case -> (harness module, function prefix, tier, concrete witnesses for the sanity pass)
 OPW = [(3, 2, 1, 0.3, 1, 0, 1, 2), (0, 0, 0, NAN, 0, 0, 0, 0), (BIG, -5, 7, INF, 1, 1, 0, 3), (1, 1, 1, -0.0, 5, 0, 0, 1)]
-HMCW = [(True, True, True, 3, 2, 1, 1, 1, 7, 2, 5, 3, 5, 3, 5, 7), (False, False, False, 3, 2, 1, 1, 0, 7, 2, 5, 3, 5, 3, 5, 7),
-        (True, False, True, 0, 0, 0, 0, 1, BIG, -3, 1, 1, 0, 0, 2, 9), (False, True, False, 1, 1, 1, 0, 0, 1, 1, 0, 0, 4, 0, 0, 0)]
+# the last three entries of the adaptor / composite witnesses: (finite window?, start, end) - counters before, inside, after
+HMCW = [(True, True, True, 3, 2, 1, 1, 1, 7, 2, 5, 3, 5, 3, 5, 7, False, 0, 0),
+        (False, False, False, 3, 2, 1, 1, 0, 7, 2, 5, 3, 5, 3, 5, 7, True, 1, 2),
+        (True, False, True, 0, 0, 0, 0, 1, BIG, -3, 1, 1, 0, 0, 2, 9, True, 5, 9),
+        (False, True, False, 1, 1, 1, 0, 0, 1, 1, 0, 0, 4, 0, 0, 0, True, 2, 6),
+        (True, True, True, 3, 2, 1, 1, 1, 7, 2, 9, 3, 9, 3, 9, 7, True, 2, 4)]
 CASES = {
     'ScalerOperator': ('c17_harness', 'ScalerOperator', 'quick', OPW),
     'SlidingWindowOperator': ('c17_harness', 'SlidingWindowOperator', 'quick', OPW),
@@ -50,18 +59,22 @@ CASES = {
     'GMRFPiecewiseCoalescentBlockUpdatingOperator':
         ('c17_harness', 'GMRFPiecewiseCoalescentBlockUpdatingOperator', 'quick', OPW),
     'LeapfrogIntegrator': ('c17_harness', 'LeapfrogIntegrator', 'quick', [(7, 0.25), (BIG, NAN), (-1, -INF), (0, 1e-320)]),
-    'AdaptiveStepSize': ('c17_harness', 'AdaptiveStepSize', 'quick', [(5, 3, True), (0, 0, False), (BIG, -1, False)]),
+    'AdaptiveStepSize': ('c17_harness', 'AdaptiveStepSize', 'quick', [(5, 3, True, False, 0, 0), (0, 0, False, True, 2, 4), (BIG, -1, False, True, 2, 4),
+                                                                      (3, 1, True, True, 2, 4)]),
     'DualAveragingStepSize': ('c17_harness', 'DualAveragingStepSize', 'quick',
-                              [(5, 3, 1, 0.1), (5, 3, 2, 0.1), (0, 0, 0, 0.0), (1, 0, 1, NAN), (2, BIG, 1, INF)]),
+                              [(5, 3, 1, 0.1, False, 0, 0), (5, 3, 2, 0.1, True, 2, 4), (0, 0, 0, 0.0, True, 2, 4),
+                               (1, 0, 1, NAN, True, 0, 0), (2, BIG, 1, INF, True, 1, 3), (3, 2, 2, 0.1, True, 2, 4)]),
     'MassMatrixAdaptor': ('c17_harness', 'MassMatrixAdaptor', 'quick',
-                          [(5, 7, True, 0, 0, 0), (5, 7, False, 1, 2, 0), (5, 7, True, 2, 0, 4), (0, 0, False, 0, 0, 0),
-                           (1, BIG, False, 2, 0, 1), (3, 3, True, 1, 0, 0)]),
+                          [(5, 7, True, 0, 0, 0, False, 0, 0), (5, 7, False, 1, 2, 0, True, 2, 4), (5, 7, True, 2, 0, 4, True, 6, 9),
+                           (0, 0, False, 0, 0, 0, True, 0, 0), (1, BIG, False, 2, 0, 1, False, 0, 0),
+                           (3, 3, True, 1, 0, 0, True, 2, 4)]),
     'HMCOperator[diag]': ('c17_harness', 'HMCOperator_diag', 'quick', HMCW),
     'HMCOperator[dense]': ('c17_harness', 'HMCOperator_dense', 'quick', HMCW),
     'MCMC': ('c17_harness', 'MCMC', 'quick',
-             [(42, True, 3, 3, 2, 1, 1, 0, 1, 2, 7, 2, 5, 3, 5, 3, 5, 7),
-              (42, False, 3, 3, 2, 1, 1, 0, 1, 3, 7, 2, 5, 3, 5, 3, 5, 7),
-              (BIG, False, -9, 0, 0, 0, 0, 0, 0, 0, 1, 1, 0, 0, 0, 0, 0, 0)]),
+             [(42, True, 3, 3, 2, 1, 1, 0, 1, 2, 7, 2, 5, 3, 5, 3, 5, 7, True, 2, 4),
+              (42, False, 3, 3, 2, 1, 1, 0, 1, 3, 7, 2, 5, 3, 5, 3, 5, 7, False, 0, 0),
+              (42, True, 3, 3, 2, 1, 1, 0, 1, 2, 7, 2, 1, 0, 1, 0, 1, 7, True, 2, 4),
+              (BIG, False, -9, 0, 0, 0, 0, 0, 0, 0, 1, 1, 0, 0, 0, 0, 0, 0, False, 0, 0)]),
     'Tensor': ('c17_harness_optim', 'Tensor', 'thorough',
                [(dt, nd, n, nn) for dt in range(4) for nd in range(3) for n in (0, 2, 3) for nn in (False, True)]),
     'Parameter': ('c17_harness_optim', 'Parameter', 'thorough',
@@ -83,9 +96,17 @@ BOUNDS = {
                       ' 0..3 symbolic ints',
     'HMC parts': 'LeapfrogIntegrator (symbolic steps/step_size); AdaptiveStepSize; DualAveragingStepSize (x/x_bar/s_bar: '
                  'initial None/0, symbolic floats f,f+1,f+2, or 0-dim float64 tensors); MassMatrixAdaptor (diagonal/dense, '
-                 'plain / variance_window / swap_every, window of 0..2 concrete samples, dim 3)',
-    'HMCOperator': 'every subset of the three adaptors x diagonal/dense 3x3 mass matrix; window 0..1; finite symbolic step size',
-    'MCMC': '4 simple operators (+ HMC operator with all three adaptors); symbolic iteration counter; window 0..3',
+                 'plain / variance_window / swap_every, window of 0..2 concrete samples, dim 3); every adaptor with the '
+                 'default (open ended) adaptation window or a finite window [start, end] with symbolic int bounds (the symbolic '
+                 'call counter lies before, inside or after it); the integrator step size / mass matrix the adaptor shares '
+                 'with its owner holds a non-default value before the adaptor is loaded and must still hold it afterwards',
+    'HMCOperator': 'every subset of the three adaptors x diagonal/dense 3x3 mass matrix; window 0..1; finite symbolic step '
+                   'size; adaptation windows: class defaults or finite [ws, we], [ws+1, we+1], [ws+2, we+2] with symbolic '
+                   'ints ws, we; every component (operator counters, mass matrix, integrator, each adaptor) holds non-default '
+                   'values that are independent symbols or pairwise distinct constants, so a later load_state_dict that '
+                   'overwrites what an earlier one restored is visible for every ordered pair (container, component)',
+    'MCMC': '4 simple operators (+ HMC operator with all three adaptors, default or finite symbolic adaptation windows); '
+            'symbolic iteration counter; window 0..3; per-operator counters / tuning values pairwise distinct',
     'Optimizer': 'thorough tier: SGD+momentum, Adam, Adagrad, RMSprop+momentum, AdamW+amsgrad x {no scheduler, StepLR, '
                  'MultiStepLR, ExponentialLR, LambdaLR, CosineAnnealingLR} x {0,1,2} concrete warm-up steps x '
                  '(StanVariationalConvergence only without scheduler, 2 warm-up steps); two parameters (float64 [2], float32 [1]) '
@@ -188,6 +209,13 @@ SPECIAL = {
 def describe(sig):
     if sig in SPECIAL:
         return SPECIAL[sig]
+    if '[restored-by-owner]' in sig:
+        c = sig.split('.load_state_dict')[0]
+        what = sig.split(':')[1].split('[restored-by-owner]')[0]
+        return (f"{c}.load_state_dict changes {what}, which belongs to the object the adaptor shares with its owner: "
+                f"HMCOperator._load_state_dict restores the integrator and the mass matrix BEFORE it loads the adaptors, so "
+                f"the adaptor's load overwrites the restored value (the step size / mass matrix after a restart is not the "
+                f"saved one)")
     if ':KeyError-' in sig:
         key = sig.split(':KeyError-')[1]
         c = sig.split('.load_state_dict')[0]
@@ -217,11 +245,40 @@ def resume_tasks(thorough):
             if R.compatible(a, s)]
 
 
+def main_tasks(thorough):
+    """symtorch tasks: ('main', configuration, orders of the -c files, solver timeout)"""
+    from chk import c17_main as MN
+
+    return [('main', c, v[2] if thorough else v[1], 120 if thorough else 30) for c, v in MN.CONFIGS.items()]
+
+
+def window_tasks(thorough):
+    """symtorch tasks: ('window', adaptor kind, MassMatrixAdaptor call counters, accepted, solver timeout)"""
+    to = 120 if thorough else 30
+    allc = (0, 1, 2, 3, 4, 5)
+    tasks = [('window', 'DualAveragingStepSize', None, True, to), ('window', 'AdaptiveStepSize', None, True, to),
+             ('window', 'AdaptiveStepSize[rate]', None, False, to), ('window', 'MassMatrixAdaptor', allc, True, to),
+             ('window', 'all', (1,), False, to)]
+    if thorough:
+        tasks += [('window', 'DualAveragingStepSize', None, False, to), ('window', 'AdaptiveStepSize', None, False, to),
+                  ('window', 'AdaptiveStepSize[rate]', None, True, to), ('window', 'MassMatrixAdaptor', allc, False, to),
+                  ('window', 'all', (0, 2, 3), False, to), ('window', 'all', (1, 4, 5), True, to)]
+    return tasks
+
+
 def run_any(task, tr):
     if isinstance(task, tuple) and task[0] == 'resume':
         from chk import c17_resume as R
 
         return R.resume_task(task, tr)
+    if isinstance(task, tuple) and task[0] == 'main':
+        from chk import c17_main as MN
+
+        return MN.main_task(task, tr)
+    if isinstance(task, tuple) and task[0] == 'window':
+        from chk import c17_window as WN
+
+        return WN.window_task(task, tr)
     return run_task(task, tr)
 
 
@@ -462,14 +519,22 @@ def body(chk):
         '(update_parameters, process_objects, load_state_dict) and the resumed run on symbolic parameter values, '
         'learning rates and scheduler decay with real torch.optim steps and an uninterpreted loss; z3/cvc5 prove that '
         'the restarted state equals the written one and that the resumed run visits the states of the uninterrupted '
-        'run; counterexamples are replayed with real checkpoint files.')
+        'run; counterexamples are replayed with real checkpoint files.  Restart sequence: symtorch executes the real '
+        'torchtree.torchtree.main (argparse, real files, update_parameters, process_objects, load_state_dict) on a '
+        'specification with several algorithms and one, two or three -c files in several orders (disjoint and overlapping '
+        'parameter sets); the solvers prove that every parameter named in any file and every algorithm hold the state of '
+        'the last file naming them.  Adaptation windows: symtorch enumerates the regions of a symbolic call counter '
+        'relative to symbolic window bounds (coverage query unsat) for HMCOperator + DualAveragingStepSize / '
+        'AdaptiveStepSize / MassMatrixAdaptor; in every region the restarted state equals the written one and the next '
+        'learn call gives the step size / mass matrix / state of the uninterrupted object.')
     tr.assumptions |= {
         'JSON data model: dict keys int/float/bool/None become strings, tuples become lists, str/int/float/bool/None are '
         'preserved exactly (floats via repr round trip, NaN/Infinity tokens allowed), unknown types go through '
         'ParameterEncoder.default, decoded objects through TensorDecoder.object_hook; validated against the real json '
         'module on every sanity witness and every counterexample',
-        'tensor payloads (parameter values, moments, mass matrices, Welford means/variances) are concrete; counters, '
-        'tuning values, iteration numbers, window contents, flags and configuration selectors are symbolic',
+        'CrossHair cases: tensor payloads (parameter values, moments, mass matrices, Welford means/variances) are concrete; '
+        'counters, tuning values, iteration numbers, window contents, flags, configuration selectors and adaptation-window '
+        'bounds are symbolic (the symtorch clauses make the tensor payloads symbolic instead)',
         'tuple vs list is not counted as a difference (JSON data model); int-vs-str dict keys, dtypes, nn flag, '
         'None-vs-value and container lengths are',
         '"a deterministic run resumed from a checkpoint visits the same sequence of parameter states" is decided for '
@@ -498,14 +563,39 @@ def body(chk):
     tr.bounds['Optimizer resume'] = R.BOUNDS_TEXT.format(
         algos=sorted({t[1] for t in rt}), scheds=sorted({t[2] for t in rt}), groups=sorted({t[3] for t in rt}),
         points=list(rt[0][4]), K1=rt[0][5] + 1)
+    from chk import c17_main as MN
+    from chk import c17_window as WN
+
+    mt, wt = main_tasks(thorough), window_tasks(thorough)
+    tr.bounds['main with 1-3 checkpoint files'] = MN.BOUNDS_TEXT.format(
+        configs='; '.join(f'{c}: {MN.CONFIGS[c][0]}' for _, c, _, _ in mt),
+        orders='; '.join(f'{c}: ' + ', '.join('(' + ' '.join(o) + ')' for o in orders) for _, c, orders, _ in mt))
+    tr.bounds['adaptation windows'] = WN.BOUNDS_TEXT.format(
+        kinds=sorted({t[1] for t in wt}), counters=sorted({c for t in wt if t[1] == 'MassMatrixAdaptor' for c in t[2]}))
     # the CrossHair cases are the long ones: they are submitted first
-    pmap(run_any, cases + rt, tr)
+    pmap(run_any, cases + rt + mt + wt, tr)
 
 
 def replay(path):
     from chk import c17_model as M
 
     r = json.load(open(path))['replay']
+    if r.get('kind') == 'main':
+        from chk import c17_main as MN
+
+        ok, sig, detail = MN.replay(r['config'], r['order'], r['values'])
+        ok = ok and sig == r['signature']
+        print(('REPRODUCED ' if ok else 'NOT REPRODUCED ') + f"{r['signature']} main[{r['config']}] -c {' -c '.join(r['order'])} "
+              f"values={r['values']}: {detail}")
+        return 1 if ok else 0
+    if r.get('kind') == 'window':
+        from chk import c17_window as WN
+
+        ok, sig, detail = WN.replay_case(r['adaptor'], r['counter'], r['accepted'], r['values'])
+        ok = ok and sig == r['signature']
+        print(('REPRODUCED ' if ok else 'NOT REPRODUCED ') + f"{r['signature']} window[{r['adaptor']}] counter={r['counter']} "
+              f"values={r['values']}: {detail}")
+        return 1 if ok else 0
     if r.get('kind') == 'resume':
         from chk import c17_resume as R
 
